@@ -408,9 +408,10 @@ def check_structure(cv, sv, ch, emit, tag):
         e = np.array([np.nan if v is None else v for v in exp], dtype=float)
         if got.shape != e.shape or not np.array_equal(np.isnan(got), np.isnan(e)) or not np.allclose(got[~np.isnan(e)], e[~np.isnan(e)]):
             bad.append(('projection-places-values-exactly:%s' % name, 'got %s expected %s' % (got.tolist(), e.tolist())))
-    cvals = 10.0 + np.arange(nC)
-    kvals = 100.0 + np.arange(nK)
-    hvals = 1000.0 + np.arange(nH)
+    # non-integer values (means, ratios): a projection must carry them unaltered
+    cvals = 10.25 + 1.5 * np.arange(nC)
+    kvals = 100.75 + 0.5 * np.arange(nK)
+    hvals = 0.25 + 2.5 * np.arange(nH)
     ok, r = call('proj', CS.project_cycles_to_samples, cvals, cv)
     if ok:
         projcheck('project_cycles_to_samples', r, [None if c is None else cvals[c] for c in s2c])
